@@ -671,10 +671,10 @@ def evaluate_attrs(chk, groups, built, results, corpus_mode=False):
             # ---- (b)
             if hdr + txt != raw:
                 if hdr + "\r\n" + txt == raw:
-                    chk.violation("BODY[HEADER] (%d octets) followed by BODY[TEXT] (%d) is not BODY[] (%d): the blank line is in neither" % (len(hdr), len(txt), len(raw)),
-                                  dict(payload0, part="b"), cls="header_blank_line")
+                    chk.violation("BODY[HEADER] (%d octets) followed by BODY[TEXT] (%d) is not BODY[] (%d): the blank line is in neither (the defect F13, repaired once, is back)" % (len(hdr), len(txt), len(raw)),
+                                  dict(payload0, part="b"))
                 else:
-                    chk.violation("BODY[HEADER] followed by BODY[TEXT] is not BODY[] (and not by the blank line only)", dict(payload0, part="b", header=hdr, text=txt))
+                    chk.violation("BODY[HEADER] followed by BODY[TEXT] is not BODY[]", dict(payload0, part="b", header=hdr, text=txt))
             for (lab, s, o) in (("SecAll", "BODY[]", raw), ("SecHeader", "BODY[HEADER]", hdr), ("SecText", "BODY[TEXT]", txt)):
                 item_cases.append(("(raw_%s, rows_%s, %s, None, %s)" % (tag, tag, lab, E.sub(raw, o)), {"msg": m["text"], "cmd": fl[0][2], "item": s}))
             # ---- (c) structure vs BODY[] vs BODY[p]
@@ -751,11 +751,19 @@ def evaluate_attrs(chk, groups, built, results, corpus_mode=False):
                     stats["partials"] += 1
                     o, n = info["part"]
                     if kind == "all_partial":
-                        if canon_b(r2) == canon_b(raw) and raw[o:o + n] != raw:
-                            chk.violation("%s returned the whole message (%d octets), not the slice of %d" % (cmd, len(r2), len(raw[o:o + n])), dict(pl, part="e"), cls="partial_ignored")
-                        elif r2 != raw[o:o + n] and canon_b(r2) != canon_b(raw)[o:o + n]:
-                            chk.violation("%s returned neither the slice nor the whole message" % cmd, dict(pl, part="e", got=r2))
-                        item_cases.append(("(%s, rows_%s, SecAll, %s, %s)" % (E.s(canon_b(raw)), tag, coq_part(info["part"]), E.s(canon_b(r2))), {"msg": m["text"], "cmd": cmd}))
+                        # boundaries are regenerated for every reconstruction: positions of their digits are not compared
+                        mask = set()
+                        for mm in re.finditer(r"----=_Part_[A-Za-z]+_(\d+)", raw):
+                            mask.update(range(mm.start(1), mm.end(1)))
+                        exp = raw[o:o + n]
+                        if len(r2) != len(exp) or any(r2[k] != exp[k] and (o + k) not in mask for k in range(len(exp))):
+                            if len(r2) == len(raw) and len(exp) != len(raw):
+                                chk.violation("%s returned the whole message (%d octets), not the slice of %d (partial ignored on BODY[])" % (cmd, len(r2), len(exp)), dict(pl, part="e"))
+                            else:
+                                chk.violation("%s returned %d octets %r, the slice has %d: %r" % (cmd, len(r2), r2[:60], len(exp), exp[:60]), dict(pl, part="e", got=r2))
+                        rawm = "".join("0" if k in mask else c for k, c in enumerate(raw))
+                        r2m = "".join("0" if (o + k) in mask else c for k, c in enumerate(r2)) if len(r2) <= len(exp) else r2
+                        item_cases.append(("(%s, rows_%s, SecAll, %s, %s)" % (E.s(rawm), tag, coq_part(info["part"]), E.sub(rawm, r2m)), {"msg": m["text"], "cmd": cmd}))
                         continue
                     rawname = E.s(r2) if (r2 == raw or len(r2) <= 1500) else None
                     i4 = r2.find("\r\n\r\n")
@@ -774,16 +782,12 @@ def evaluate_attrs(chk, groups, built, results, corpus_mode=False):
                         if got is None:
                             chk.violation("response to %s carries no BODY[HEADER] item" % cmd, pl)
                             continue
-                        # the header as BODY[HEADER] defines it on this server (law of class header_blank_line)
-                        # (also accepted: the header including the blank line, should F13 be fixed)
-                        whole = r2[:i4 + 2] if i4 >= 0 else r2
-                        whole4 = r2[:i4 + 4] if i4 >= 0 else r2
-                        if got in (whole[o:o + n], whole4[o:o + n]):
-                            pass
-                        elif got in (whole, whole4):
-                            chk.violation("%s returned the whole header (%d octets), not the slice of %d" % (cmd, len(got), len(whole[o:o + n])), dict(pl, part="e"), cls="partial_ignored")
-                        else:
-                            chk.violation("%s returned neither the slice nor the whole header" % cmd, dict(pl, part="e", got=got))
+                        whole = r2[:i4 + 4] if i4 >= 0 else r2
+                        if got != whole[o:o + n]:
+                            if got in (whole, whole[:-2]) :
+                                chk.violation("%s returned the whole header (%d octets), not the slice of %d (partial ignored on BODY[HEADER])" % (cmd, len(got), len(whole[o:o + n])), dict(pl, part="e"))
+                            else:
+                                chk.violation("%s returned %r, the slice of the header is %r" % (cmd, got[:80], whole[o:o + n][:80]), dict(pl, part="e", got=got))
                         if rawname:
                             item_cases.append(("(%s, rows_%s, SecHeader, %s, %s)" % (rawname, tag, coq_part(info["part"]), E.sub(r2, got)), {"msg": m["text"], "cmd": cmd}))
             # ---- (d)
